@@ -757,3 +757,32 @@ func VerifCSSUnicodeRange(n int) {
 	vAssert(same, "same set of code points")
 	vReach("end")
 }
+
+var verifLongNumbers = []string{"1.2345678901234567", "0.12345678901234567", "123456789012345678", "1.00000000000000001", "9.9999999999999999", "12345.678901234567", ".000000000000000012345678"}
+
+// VerifCSSLongNumber (C04/C16): numbers with more significant digits than a float64 holds, as number, percentage and
+// dimension, Precision symbolic: at Precision <= 0 every digit is kept (exact value); at Precision p > 0 the value is
+// within half a unit of the p-th significant digit.
+func VerifCSSLongNumber(n int) {
+	num := []byte(verifLongNumbers[vChoice("num", len(verifLongNumbers))])
+	unit := []string{"", "px", "%", "em"}[vChoice("unit", 4)]
+	prec := []int{0, -1, 1, 5, 14, 15, 16, 17, 20}[vChoice("prec", 9)]
+	o := &Minifier{KeepCSS2: vBool("KeepCSS2"), Precision: prec}
+	val := append(append([]byte(nil), num...), unit...)
+	out := verifDecl("width", val, o)
+	k := 0
+	for k < len(out) && (refDigit(out[k]) || out[k] == '.' || out[k] == '-' || out[k] == '+' || (out[k] == 'e' || out[k] == 'E') && k+1 < len(out) && (refDigit(out[k+1]) || out[k+1] == '-' || out[k+1] == '+')) {
+		k++
+	}
+	onum, ounit := out[:k], out[k:]
+	vAssert(refIsNumber(onum, true), "output starts with a number")
+	vAssert(rcEq(ounit, []byte(unit)), "same unit")
+	a, b := refParse(num), refParse(onum)
+	if prec <= 0 {
+		vAssert(refSame(a, b), "Precision 0: exact value, every digit kept")
+	} else if !refSame(a, b) {
+		vAssert(refWithinHalfUlp(a, b, prec), "within half a unit of the last retained digit")
+	}
+	vAssert(len(out) <= len(val), "never longer")
+	vReach("end")
+}
